@@ -83,7 +83,9 @@ word zzPowerModW(register word a, register word b, register word mod,
 	ASSERT(mod != 0);
 	// b == 0?
 	if (b == 0)
-		return 1;
+		return 1 % mod;
+	// a <- a \mod mod
+	a %= mod;
 	// раскладка stack
 	powers = (word*)stack;
 	// powers <- малые нечетные степени a
